@@ -20,6 +20,7 @@ EXTENDS Naturals, FiniteSets, TLC
 CONSTANTS N, Apis, Modes, LossKinds,
           FixAccept,   \* accept() tests `active` under the lock; shutdown notifies all, also after close()
           FixEvent,    \* Channel._event_pending does not clear the event of a closed channel
+          EventTestOutside, \* (with FixEvent) the "closed?" test of _event_pending is made before Channel.lock is taken
           FixEnsure,   \* ServiceRequestingTransport.ensure_session tests `active` in its sleep loop
           FixProxy,    \* ProxyCommand.recv reports end of file when the process has exited
           Omit,        \* "none" | "unlink" | "clear" | "notify" | "cl_unlink"
@@ -247,8 +248,14 @@ SendWake(w) == /\ wpc[w] = "send_wait" /\ ch.closed
 ReqCheck(w) == /\ wpc[w] = "req_check"
                /\ IF ch.closed THEN Finish(w, "raised") ELSE Goto(w, "req_clear")
                /\ Keep /\ UNCHANGED shared
-ReqClear(w) == /\ wpc[w] = "req_clear" /\ Goto(w, "req_send")
-               /\ ch' = (IF FixEvent /\ ch.closed THEN [ch EXCEPT !.ready = FALSE]
+(* _event_pending: entered (req_clear), then Channel.lock is taken (req_lock) - _set_closed runs under the     *)
+(* same lock - and the event is cleared.  The repair tests `closed` inside the lock; tested before the lock  *)
+(* (EventTestOutside) the channel can be closed in between and the clear wipes the wake-up again.            *)
+ReqEnter(w) == /\ wpc[w] = "req_clear"
+               /\ Goto(w, IF FixEvent /\ EventTestOutside /\ ch.closed THEN "req_send" ELSE "req_lock")
+               /\ Keep /\ UNCHANGED shared
+ReqClear(w) == /\ wpc[w] = "req_lock" /\ Goto(w, "req_send")
+               /\ ch' = (IF FixEvent /\ ~EventTestOutside /\ ch.closed THEN [ch EXCEPT !.ready = FALSE]
                          ELSE [ch EXCEPT !.event = FALSE, !.ready = FALSE])
                /\ Keep
                /\ UNCHANGED <<active, pclosed, sclosed, tt, cl, loss, completion, authev, svc, ocreg, ocev, cvwait, cvnote>>
@@ -337,7 +344,7 @@ PxSend(w) == /\ wpc[w] = "px_send" /\ Finish(w, IF loss = "proxy_exit" THEN "rai
              /\ Keep /\ UNCHANGED shared
 
 WStep(w) == \/ RecvLock(w) \/ RecvWake(w) \/ SendLock(w) \/ SendWake(w) \/ SendMsg(w)
-            \/ ReqCheck(w) \/ ReqClear(w) \/ ReqSend(w) \/ ReqWait(w) \/ StWait(w)
+            \/ ReqCheck(w) \/ ReqEnter(w) \/ ReqClear(w) \/ ReqSend(w) \/ ReqWait(w) \/ StWait(w)
             \/ OcCheck(w) \/ OcRegister(w) \/ OcSend(w) \/ OcPoll(w)
             \/ GrNew(w) \/ GrSend(w) \/ GrPoll(w) \/ RkNew(w) \/ RkSend(w) \/ RkPoll(w)
             \/ AuCheck(w) \/ AuReq(w) \/ AuPoll(w) \/ EsCheck(w) \/ EsReq(w) \/ EsSleep(w)
